@@ -108,7 +108,10 @@ void exec_c23(const Plan& p, Ctx& ctx) {
             if (per_peer != 0 && out.size() > per_peer) {
                 // more CHUNK frames outstanding at the peer than the limit allows (none acknowledged, none timed out yet)
                 std::size_t fresh = 0;
-                for (auto& t : out) if (sk::now_ns() - t.seen_at < timeout_s * kSec) ++fresh;
+                // `seen_at` is when the frame reached the peer, the node's timeout runs from the dispatch, one network delay earlier:
+                // a transfer counts as certainly alive only while it is younger than the timeout minus that delay
+                const std::int64_t slack = p.knob("lat_max_us", 1000) * 1000 * 2 + 20 * kMs;
+                for (auto& t : out) if (sk::now_ns() - t.seen_at < timeout_s * kSec - slack) ++fresh;
                 if (fresh > per_peer) ctx.violate("C23.per_peer_limit_on_wire", fmt("peer %d holds %zu unacknowledged transfers younger than the timeout; per-peer limit %zu (%s)", pi, fresh, per_peer, when));
             }
             // slots released: nothing outstanding that could still be alive => counter must be zero
